@@ -307,9 +307,11 @@ def faceDestroy (st : St) (ext : Ext) (name : Name) (p : Params) : St × Resp :=
     match a.faceId with
     | none => (st, r400)
     | some f =>
+      -- the response echoes the FaceId alone (fix of F-17k: echoing every request parameter through
+      -- ToDict / DictToControlArgs failed for a Strategy field and crashed the management thread)
       if (faceGet st.faces f).isSome then
-        ({ st with faces := faceRemove st.faces f, rib := ribCleanFace st.rib f, fib := ext.fibAfter }, .ctrl 200 a)
-      else (st, .ctrl 200 a)
+        ({ st with faces := faceRemove st.faces f, rib := ribCleanFace st.rib f, fib := ext.fibAfter }, .ctrl 200 { faceId := some f })
+      else (st, .ctrl 200 { faceId := some f })
 
 /-- the part of create after the URI has been recognised as a unicast UDP/TCP URI -/
 def createOn (st : St) (a : Args) (c : UriClass) (canon : String) : St × Resp :=
